@@ -19,6 +19,8 @@ pub fn def() -> PropDef {
         needed_probes: &["c15_upgrade_checked", "c15_ctx_op_checked", "c15_ticks_checked", "c15_identity_checked", "c15_subset_1", "c15_subset_8", "c15_subset_15"],
         quick_runs: 30_000,
         thorough_runs: 1_000_000,
+        block: 1,
+        flavours: &["tokio"],
     }
 }
 
